@@ -1,6 +1,9 @@
 package main
 
-import "fmt"
+import (
+	"fmt"
+	"strings"
+)
 
 // ignoredPartTemplates: a version template without and with the part Compare ignores.
 func ignoredPartTemplates(eco string) (plain, suffixed string) {
@@ -65,6 +68,10 @@ func init() {
 						// interval notation and the comparator list form
 						irs = append(irs, "["+suff+"]", "["+suff+",)", "("+suff+",)", "(,"+suff+"]", "(,"+suff+")", "="+suff+",>=0.0.0", ">="+suff+",<9.9.9")
 					}
+					// ... and as one alternative of an OR list
+					for _, or := range opsTable[eco].ors {
+						irs = append(irs, suff+or+plain, "="+suff+or+">="+plain, "<"+plain+or+suff+or+">="+plain)
+					}
 					for _, r := range irs {
 						for _, b := range []string{plain, suff} {
 							id := fmt.Sprintf("C20/cong/%s/%s/ignored/%s", eco, r, b)
@@ -127,6 +134,34 @@ func init() {
 						}
 					}
 				}
+				// the same part combinations in two spellings of one release (X.Y and X.Y.0) for the
+				// ecosystems that pad releases with zeros: equal versions, different text, every comparator
+				// with a plain final bound (rules such as "<V excludes pre-releases of V" must not look at text)
+				if eco == "pypi" || eco == "gem" || eco == "maven" || eco == "nuget" || eco == "conan" {
+					ops := opsTable[eco].ops
+					var prs []string
+					for _, op := range ops {
+						if eco == "pypi" && (op == "===" || op == "~=") {
+							continue
+						}
+						prs = append(prs, op+"{d}.{d}", op+"{d}.{d}.0")
+					}
+					if eco == "pypi" {
+						prs = append(prs, "~={d}.{d}.{d}", "=={d}.{d}.*", ">={d}.{d},<{d}.{d}")
+					}
+					if eco == "maven" || eco == "nuget" {
+						prs = append(prs, "[{d}.{d},{d}.{d})", "({d}.{d},{d}.{d}.0]", "[{d}.{d}]")
+					}
+					for _, r := range prs {
+						for _, t := range phaseTemplates(eco, "quick") {
+							if !strings.HasPrefix(t, "{d}.{d}") || strings.HasPrefix(t, "{d}.{d}.{d}") {
+								continue
+							}
+							padded := "{d}.{d}.0" + t[len("{d}.{d}"):]
+							out = append(out, &Config{ID: fmt.Sprintf("C20/cong/%s/%s/padded/%s", eco, r, t), Pkg: zzhPkg, Func: "C20Cong", Args: []ArgSpec{ArgStr(eco), ArgTmpl(r), ArgTmpl(t), ArgTmpl(padded)}})
+						}
+					}
+				}
 				for _, r := range rs {
 					if eco == "pypi" && len(r) >= 3 && r[:3] == "===" {
 						continue
@@ -151,7 +186,7 @@ func init() {
 			return out
 		},
 		Bounds: func(tier string) string {
-			return "ranges: comparator forms per DESIGN B.1 plus shorthand constructs per B.4 (thinned to 12 quick / 40 thorough per ecosystem); versions: 5 (12) grammar templates for pairs, 3 (7) for triples; pypi '===' excluded; per ecosystem one free-run version template (two characters over the version alphabet) against the must-have spellings on 6 (16) ranges; one comparator range per operator whose bound and candidates carry build metadata / a pypi local label; alpm pairs differing in pkgrel presence excluded; part-combination templates (phaseTemplates, thinned to 4 (6)) as pairs and triples on 4 (10) conjunctive ranges per ecosystem"
+			return "ranges: comparator forms per DESIGN B.1 plus shorthand constructs per B.4 (thinned to 12 quick / 40 thorough per ecosystem); versions: 5 (12) grammar templates for pairs, 3 (7) for triples; pypi '===' excluded; per ecosystem one free-run version template (two characters over the version alphabet) against the must-have spellings on 6 (16) ranges; one comparator range per operator whose bound and candidates carry build metadata / a pypi local label; alpm pairs differing in pkgrel presence excluded; part-combination templates (phaseTemplates, thinned to 4 (6)) as pairs and triples on 4 (10) conjunctive ranges per ecosystem; for pypi, gem, maven, nuget, conan each part combination in the spellings X.Y and X.Y.0 against every comparator with a plain bound"
 		},
 	})
 }
